@@ -135,14 +135,14 @@ Corollary fresh_if_mtime_and_stamp_change vs v0 ops :
   (forall v1 v2, In v1 vs -> In v2 vs -> v_secs v1 = v_secs v2 -> v_nanos v1 = v_nanos v2 -> same_data v1 v2) ->
   (forall v1 v2, In v1 vs -> In v2 vs -> v_len v1 = v_len v2 -> v_secs v1 = v_secs v2 -> same_data v1 v2) ->
   In v0 vs -> (forall v, In (Write v) ops -> In v vs) ->
-  forall o, In o (run code_fkey code_skey (init v0) ops) -> obs_fresh o = true \/ exists b t, o = ODict b t.
+  forall o, In o (run code_fkey code_skey (init v0) ops) -> obs_fresh o = true \/ exists b t u, o = ODict b t u.
 Proof.
   intros H1 H2 H0 Hw o Ho.
   assert (match o with OAns allowed truth => allowed = [truth; truth] | _ => True end) as H.
   { apply (fresh_if_key_changes code_fkey code_skey vs) with (v0 := v0) (ops := ops); auto.
     - intros v1 v2 A B E. unfold code_fkey in E. inversion E. now apply H1.
     - intros v1 v2 A B E. unfold code_skey in E. inversion E. now apply H2. }
-  destruct o as [|allowed truth|b t]; [now left | | right; eauto].
+  destruct o as [|allowed truth|b t u]; [now left | | right; eauto].
   left. subst allowed. cbn. destruct truth; cbn; rewrite ?Z.eqb_refl; reflexivity.
 Qed.
 
@@ -184,7 +184,7 @@ Proof. repeat split; vm_compute; reflexivity. Qed.
 (* the per-directory dictionary-column cache survives a rebuild of the sidecar *)
 Theorem dict_cols_never_invalidated_refuted :
   run code_fkey code_skey (init w1) [Query Build 0; DictCols; Write w2_plain; Query Build 0; DictCols]
-    = [OAns [All 1; All 1] (All 1); ODict true true; OWrite; OAns [All 2; All 2] (All 2); ODict true false].
+    = [OAns [All 1; All 1] (All 1); ODict true true false; OWrite; OAns [All 2; All 2] (All 2); ODict true false false].
 Proof. vm_compute. reflexivity. Qed.
 
 (* the proposed repair (footer key += length, stamp += nanoseconds) removes the same-second witness and the
